@@ -89,7 +89,9 @@ TraceNext ==
     \/ Ev("loop.unsub") /\ LoopUnsub(E.s) /\ Keep
     \/ Ev("loop.done") /\ LoopDone /\ Keep
     \/ Ev("loop.exit") /\ LoopExit /\ Keep
-    \/ Ev("call.pub") /\ CallPub(E.p, ToSet(E.t)) /\ Keep
+    \* (a Message object published again carries the ID it was given for its first publication: "wantid")
+    \/ Ev("call.pub") /\ CallPub(E.p, ToSet(E.t)) /\ auto' = auto
+                      /\ pid' = IF "wantid" \in DOMAIN E THEN [pid EXCEPT ![E.p] = E.wantid] ELSE pid
     \/ Ev("pub.closed") /\ PubClosed(E.p) /\ Keep
     \/ Ev("ret.pub") /\ RetPub(E.p, E.v) /\ Keep
     \/ Ev("call.down") /\ CallDown(E.k, E.ctxdone) /\ Keep
